@@ -39,6 +39,15 @@ class HarnessError(Exception):
     pass
 
 
+def _die_with_parent():
+    """preexec_fn for workers: SIGKILL when the check process goes away (no orphaned sanitizer processes)."""
+    try:
+        import ctypes
+        ctypes.CDLL('libc.so.6').prctl(1, 9)   # PR_SET_PDEATHSIG, SIGKILL
+    except Exception:
+        pass
+
+
 def _hash_tree(h, root, exts=None):
     for d, dirs, files in sorted(os.walk(root)):
         dirs.sort()
@@ -194,7 +203,7 @@ def run_single(job, seed, index, tier, timeout=None, verbose=True):
     cmd = [job.exe, '--mode', job.mode, '--seed', str(seed), '--only', str(index), '--tier', str(tier)]
     try:
         p = subprocess.run(cmd, stdout=subprocess.PIPE, stderr=subprocess.PIPE, env=san_env(job.leaks),
-                           timeout=timeout or job.single_timeout, errors='replace', text=True)
+                           timeout=timeout or job.single_timeout, errors='replace', text=True, preexec_fn=_die_with_parent)
         return p.returncode, p.stderr
     except subprocess.TimeoutExpired as e:
         err = e.stderr
@@ -223,7 +232,7 @@ def run_job(job, seed, tier, workdir, log):
         cmd = [job.exe, '--mode', job.mode, '--seed', str(seed), '--count', str(total), '--worker', str(w),
                '--workers', str(W), '--start', str(start), '--out', out, '--crumb', crumb, '--tier', str(tiern)]
         ef = open(errp, 'w')
-        p = subprocess.Popen(cmd, stdout=subprocess.DEVNULL, stderr=ef, env=san_env(job.leaks))
+        p = subprocess.Popen(cmd, stdout=subprocess.DEVNULL, stderr=ef, env=san_env(job.leaks), preexec_fn=_die_with_parent)
         ef.close()
         active[w] = dict(p=p, out=out, crumb=crumb, err=errp, gen=gen, start=start)
 
